@@ -49,7 +49,7 @@ var sizes = types.SizesFor("gc", "amd64")
 var aliasRe = regexp.MustCompile(`\b(byte|rune)\b`)
 
 func typeKey(t types.Type) string {
-	s := types.TypeString(t.Underlying(), nil)
+	s := typeKey0(t)
 	return aliasRe.ReplaceAllStringFunc(s, func(m string) string {
 		if m == "byte" {
 			return "uint8"
@@ -227,6 +227,7 @@ type Val struct {
 	Tup []Val
 	It  *iterState
 	GS  string  // sort of a ghost / mathematical value (T == nil)
+	arr []string // sequence parameter of a recursive spec function: element arrays (one per leaf)
 	lit *string // contract string literal
 }
 
@@ -331,4 +332,41 @@ func zeroLeaf(l Leaf) string {
 		z = "((as const " + srt + ") " + z + ")"
 	}
 	return z
+}
+
+// typeKey0: named struct types are identified by name, everything else by structure.
+func typeKey0(t types.Type) string {
+	t = types.Unalias(t)
+	switch u := t.(type) {
+	case *types.Named:
+		if _, ok := u.Underlying().(*types.Struct); ok {
+			p := ""
+			if u.Obj().Pkg() != nil {
+				p = u.Obj().Pkg().Name() + "."
+			}
+			s := p + u.Obj().Name()
+			if ta := u.TypeArgs(); ta != nil && ta.Len() > 0 {
+				s += "[" + types.TypeString(ta.At(0), nil) + "]"
+			}
+			return s
+		}
+		return typeKey0(u.Underlying())
+	case *types.Pointer:
+		return "*" + typeKey0(u.Elem())
+	case *types.Slice:
+		return "[]" + typeKey0(u.Elem())
+	case *types.Array:
+		return fmt.Sprintf("[%d]%s", u.Len(), typeKey0(u.Elem()))
+	case *types.Map:
+		return "map[" + typeKey0(u.Key()) + "]" + typeKey0(u.Elem())
+	case *types.Struct:
+		var b strings.Builder
+		b.WriteString("struct{")
+		for i := 0; i < u.NumFields(); i++ {
+			b.WriteString(u.Field(i).Name() + " " + typeKey0(u.Field(i).Type()) + ";")
+		}
+		b.WriteString("}")
+		return b.String()
+	}
+	return types.TypeString(t.Underlying(), nil)
 }
